@@ -1,6 +1,6 @@
 #!/bin/bash
 # seedcheck.sh <seed-dir> <prop> [tier]  : apply a seed patch to a scratch copy and run the CURRENT /verif check on it
 S=$1; P=$2; T=${3:-quick}; D=/tmp/seedcheck_manual
-rsync -a --delete --exclude target --exclude .git /repo/ $D/
+rsync -rlpgoD --checksum --delete --exclude target --exclude .git /repo/ $D/
 (cd / && git apply --unsafe-paths --directory=$D $S/patch.diff) || patch -p1 -d $D < $S/patch.diff
 /verif/check $P --tier $T --repo $D --no-evidence 2>&1 | grep -v "^KNOWN" | cut -c1-500 | tail -8
